@@ -465,7 +465,7 @@ MANIFEST = {
             'the i-th element of the combiner\'s argument list with i = best_layer_index() = '
             'arg-max of alpha (exact, independent of names, nesting, branch count and producer '
             'op kind), every other input and the combiner are erased and the clean-up calls '
-            'post-dominate the loop. Output equality under hard selection is not decided.',
+            'post-dominate the loop. Output equality under hard selection is not decided. Export runs its surgery on a graph of its own (a GraphModule that adopts the SuperNet\'s graph is a structural edit of the SuperNet).',
     'note': 'Trusted: torch.fx argument recording order and clean-up semantics.',
     'technique': 'def-use provenance of graph-surgery operands + must-pass-through of clean-up '
                  'calls',
